@@ -33,6 +33,28 @@ type Group struct {
 type Shape struct {
 	Groups []Group `json:"groups"`
 	Seed   uint64  `json:"seed"`
+	// Numbering, when present, fixes the Raft (index, term) of every generated
+	// snapshot, oldest first, instead of drawing them from the seed. It is used
+	// for the shapes whose snapshot identifiers change their number of digits
+	// inside the set that gets reaped (index 8,9,10,11 / term 9 -> 10), so that
+	// the lexical order of the snapshot directory names differs from their
+	// chronological order.
+	Numbering []IndexTerm `json:"numbering,omitempty"`
+}
+
+// IndexTerm is the Raft position given to one generated snapshot.
+type IndexTerm struct {
+	Index uint64 `json:"index"`
+	Term  uint64 `json:"term"`
+}
+
+// NSnaps is the number of snapshots the shape describes.
+func (s Shape) NSnaps() int {
+	n := 0
+	for _, g := range s.Groups {
+		n += 1 + len(g.Incs)
+	}
+	return n
 }
 
 // Key is the canonical text of a shape.
@@ -41,7 +63,15 @@ func (s Shape) Key() string {
 	for _, g := range s.Groups {
 		p = append(p, fmt.Sprintf("F%d%v", g.FullWALs, g.Incs))
 	}
-	return strings.Join(p, "|") + fmt.Sprintf("#%d", s.Seed)
+	k := strings.Join(p, "|") + fmt.Sprintf("#%d", s.Seed)
+	if len(s.Numbering) > 0 {
+		var q []string
+		for _, it := range s.Numbering {
+			q = append(q, fmt.Sprintf("%d-%d", it.Term, it.Index))
+		}
+		k += "@" + strings.Join(q, ",")
+	}
+	return k
 }
 
 // SnapInfo describes one generated snapshot.
@@ -225,9 +255,14 @@ type generator struct {
 	cfg     raft.Configuration
 	snaps   []SnapInfo
 	stageNo int
+	fixed   []IndexTerm
 }
 
 func (g *generator) advance() {
+	if k := len(g.snaps); k < len(g.fixed) {
+		g.index, g.term = g.fixed[k].Index, g.fixed[k].Term
+		return
+	}
 	g.index += 1 + uint64(g.r.IntN(40))
 	if g.r.IntN(4) == 0 {
 		g.term++
@@ -377,6 +412,12 @@ func Generate(sh Shape, out string) (res GenResult) {
 	str.SetReapThreshold(1 << 30) // generation must never trigger the auto-reaper
 	g := &generator{w: NewWorkload(r), r: r, work: work, live: live, cm: cm, str: str,
 		index: 10 + uint64(r.IntN(1000)), term: 1 + uint64(r.IntN(5)), cfg: MakeConfiguration(r)}
+	if len(sh.Numbering) > 0 {
+		if len(sh.Numbering) != sh.NSnaps() {
+			return fail(fmt.Errorf("shape numbers %d snapshots but describes %d", len(sh.Numbering), sh.NSnaps()))
+		}
+		g.fixed = sh.Numbering
+	}
 	for _, grp := range sh.Groups {
 		if err := g.full(grp.FullWALs); err != nil {
 			return fail(fmt.Errorf("full: %w", err))
